@@ -3,6 +3,7 @@ CONSTANTS
   Addr <- MCAddr
   SentBits = {0, 16, 24, 32}
   Scopes = {0, 8, 20, 24, 32}
+  Echoes = {0, 2, 4}
   FwdMax = 24
   Floor = 24
   Enabled = FALSE
